@@ -146,8 +146,9 @@ func (p *Program) StaticLabels(entry string) [][2]string {
 	return out
 }
 
-// ReplayConcrete re-runs the violating path with every input pinned to the model's value and
-// reports whether the same assertion fails (or the same panic occurs).
+// ReplayConcrete re-executes the entry with every input pinned to the model's value and reports
+// whether the same assertion fails (or the same panic occurs). Decisions that the pinned inputs
+// do not determine (uninterpreted environment predicates) are explored, up to 256 paths.
 func (p *Program) ReplayConcrete(v Violation) bool {
 	fn := p.Root.Func(v.Entry)
 	if fn == nil {
@@ -158,14 +159,20 @@ func (p *Program) ReplayConcrete(v Violation) bool {
 		return false
 	}
 	defer s.Close()
-	ex := NewExec(p, s, v.Decisions)
-	ex.entry = v.Entry
-	ex.pin = v.Model
-	_, viol := p.runPath(ex, fn)
-	for _, x := range viol {
-		if x.Label == v.Label {
-			return true
+	work := [][]int{{}}
+	for n := 0; len(work) > 0 && n < 256; n++ {
+		prefix := work[len(work)-1]
+		work = work[:len(work)-1]
+		ex := NewExec(p, s, prefix)
+		ex.entry = v.Entry
+		ex.pin = v.Model
+		_, viol := p.runPath(ex, fn)
+		for _, x := range viol {
+			if x.Label == v.Label {
+				return true
+			}
 		}
+		work = append(work, ex.forks...)
 	}
 	return false
 }
